@@ -191,3 +191,40 @@ def wfMembers : Members → Bool
 end
 
 end ShapeVerif
+
+namespace ShapeVerif
+open Shape
+
+mutual
+/-- no `OneOf` anywhere inside (true of every shape inferred from a single document) -/
+def Shape.plain : Shape → Bool
+  | .array t _ => Shape.plain t
+  | .object c _ => plainMembers c
+  | .oneOf _ _ => false
+  | .tuple es _ => plainList es
+  | _ => true
+def plainList : List Shape → Bool
+  | [] => true
+  | s :: l => Shape.plain s && plainList l
+def plainMembers : Members → Bool
+  | [] => true
+  | (_, s) :: l => Shape.plain s && plainMembers l
+end
+
+mutual
+/-- no `OneOf` directly inside a `Tuple`, at any depth (invariant of accumulated shapes) -/
+def Shape.tupleFlat : Shape → Bool
+  | .array t _ => Shape.tupleFlat t
+  | .object c _ => tupleFlatMembers c
+  | .oneOf vs _ => tupleFlatList vs
+  | .tuple es _ => es.all (fun e => !e.isOneOf) && tupleFlatList es
+  | _ => true
+def tupleFlatList : List Shape → Bool
+  | [] => true
+  | s :: l => Shape.tupleFlat s && tupleFlatList l
+def tupleFlatMembers : Members → Bool
+  | [] => true
+  | (_, s) :: l => Shape.tupleFlat s && tupleFlatMembers l
+end
+
+end ShapeVerif
